@@ -25,7 +25,7 @@ import (
 
 func TestC09Render(t *testing.T) {
 	e := vlib.GetEnv()
-	n := e.Pick(120, 4000)
+	n := e.Pick(120, 40000)
 	kinds := []string{"onStartup", "Schedule", "Synchronization", "Added", "Modified", "Deleted", "Group", "Validating", "Mutating", "Conversion"}
 	vlib.RunCases(t, "C09", "render", n, func(c *vlib.Case) vlib.Result {
 		var res vlib.Result
